@@ -8,7 +8,11 @@
    TOYC <wbits> <full01> <hex> ...        -> compress+flush outputs on one context
    TOYD <hex> ...                         -> decompress results on one context (OK:<hex> | ERR)
    LTS <mask01> <compress> <notakeover01> <ev> ...   ev = A/<t> | K/<t>/<op> | W/<t> | R/<t> | P/<op>
-      -> OK|REJ:<index of the first event that is not enabled>;W:<wire hex>;H:<none|idle|comp>;N:<#operations on the wire> *)
+      -> OK|REJ:<index of the first event that is not enabled>;W:<wire hex>;H:<none|idle|comp>;N:<#operations on the wire>
+   FIFO <mask01> <compress> <notakeover01> <ev> ...  as LTS plus  E/<t>/<op> (send_frame called: lock requested)
+      -> as LTS, plus ;Q:<waiters left>;C:<none|some>
+   QUEUE <ev> ...   ev = F/<payload hex> | R | T | X      (feed_data of a binary message, read() called, read() returned, cancelled)
+      -> OK|REJ:<i>;G:<returned payloads, comma separated hex>;B:<#buffered>;P:<reading01> *)
 let b01 b = if b then "1" else "0"
 let ev_str = function
   | MText b -> "T:" ^ hex_of_bytes b
@@ -59,6 +63,37 @@ let handle line =
       "W:" ^ hex_of_bytes st.c_wire;
       "H:" ^ (match st.c_lock with None -> "none" | Some (_, HIdle) -> "idle" | Some (_, HComp _) -> "comp");
       "N:" ^ string_of_int (List.length st.c_order) ]
+  | "FIFO" :: mk :: cmp :: ntk :: evs ->
+    let c = { w_mask = (mk = "1"); w_compress = n_of_s cmp; w_notakeover = (ntk = "1") } in
+    let parse_ev s =
+      match String.split_on_char '/' s with
+      | ["E"; t; o] -> FEnq (n_of_s t, parse_op o)
+      | ["A"; t] -> FEv (EAcq (n_of_s t))
+      | ["K"; t; o] -> FEv (EComp (n_of_s t, parse_op o))
+      | ["W"; t] -> FEv (EWrite (n_of_s t))
+      | ["R"; t] -> FEv (ERel (n_of_s t))
+      | ["P"; o] -> FEv (EPlain (parse_op o))
+      | _ -> failwith ("bad event " ^ s) in
+    let (st, bad) = toy_frun_trace c (List.map parse_ev evs) in
+    String.concat ";" [
+      (match bad with None -> "OK" | Some i -> "REJ:" ^ string_of_int (int_of_n i));
+      "W:" ^ hex_of_bytes st.f_c.c_wire;
+      "H:" ^ (match st.f_c.c_lock with None -> "none" | Some (_, HIdle) -> "idle" | Some (_, HComp _) -> "comp");
+      "N:" ^ string_of_int (List.length st.f_c.c_order);
+      "Q:" ^ string_of_int (List.length st.f_q);
+      "C:" ^ (match st.f_cur with None -> "none" | Some _ -> "some") ]
+  | "QUEUE" :: evs ->
+    let parse_ev s =
+      match String.split_on_char '/' s with
+      | ["F"; p] -> QFeed (MBinary (bytes_of_hex p))
+      | ["R"] -> QRead | ["T"] -> QReturn | ["X"] -> QCancel
+      | _ -> failwith ("bad event " ^ s) in
+    let (st, bad) = qrun_trace qinit (List.map parse_ev evs) N0 in
+    String.concat ";" [
+      (match bad with None -> "OK" | Some i -> "REJ:" ^ string_of_int (int_of_n i));
+      "G:" ^ (if st.q_got = [] then "-" else String.concat "," (List.map (function MBinary b -> hex_of_bytes b | _ -> "?") st.q_got));
+      "B:" ^ string_of_int (List.length st.q_buf);
+      "P:" ^ b01 st.q_reading ]
   | ["HDR"; mk; rsv; op; len] -> hex_of_bytes (encode_header (mk = "1") (n_of_s rsv) (n_of_s op) (n_of_s len))
   | "TOYC" :: wb :: full :: ms ->
     let cx = ref (toy_cinit (n_of_s wb)) in
